@@ -19,15 +19,9 @@ Ltac good_step :=
 Ltac good := repeat good_step.
 
 Lemma good_produce_read v : good (produce_read v).
-Proof. unfold produce_read, produce_partition. good. Qed.
+Proof. unfold produce_read, produce_partition. apply good_expectZeroSize. apply good_skipRemaining. good. Qed.
 Lemma good_listoffsets_read : good listoffsets_read.
 Proof. unfold listoffsets_read. good. Qed.
-Lemma good_op_read a v : good (op_read a v).
-Proof.
-  destruct a; cbn [op_read]; try (apply good_expectZeroSize; apply good_read_ty).
-  - apply good_produce_read.
-  - apply good_listoffsets_read.
-Qed.
 Lemma good_apiversions_read : good apiversions_read.
 Proof. unfold apiversions_read. good. Qed.
 Lemma good_fetch_header v : good (fetch_header v).
@@ -38,6 +32,49 @@ Proof.
 Qed.
 Lemma good_msg_header : good msg_header.
 Proof. unfold msg_header. good. Qed.
+Lemma good_discard_remaining : good discard_remaining.
+Proof. unfold discard_remaining. good. Qed.
+Lemma good_fetch_read v off : good (fetch_read v off).
+Proof.
+  unfold fetch_read. apply good_bind; [apply good_skipRemaining; apply good_fetch_header|].
+  intros h. destruct (snd h =? off).
+  - apply good_bind; [apply good_discard_remaining|]. intros _. apply good_ret.
+  - apply good_bind; [apply good_msg_header|]. intros _.
+    apply good_bind; [apply good_discard_remaining|]. intros _. apply good_ret.
+Qed.
+Lemma good_op_read a v off : good (op_read a v off).
+Proof.
+  destruct a; cbn [op_read]; try (apply good_expectZeroSize; apply good_read_ty).
+  - apply good_produce_read.
+  - apply good_fetch_read.
+  - apply good_listoffsets_read.
+  - apply good_apiversions_read.
+Qed.
+
+(* ---- every response reader is [safe] ---- *)
+Ltac safe_step :=
+  first
+    [ apply safe_ret | apply safe_fail; reflexivity | apply safe_get_sz
+    | apply safe_read_ty | apply safe_read_int
+    | apply safe_lenprefixed; intros ?
+    | apply safe_discard_cb | apply safe_discardN | apply safe_readNewBytes
+    | apply safe_expectZeroSize | apply safe_skipRemaining | apply safe_readArrayWith
+    | apply safe_rep | apply safe_pmap
+    | apply safe_bind; [|intros ?]
+    | match goal with |- safe (if ?b then _ else _) => destruct b end ].
+Ltac safe := repeat safe_step.
+
+Lemma safe_op_read a v off : safe (op_read a v off).
+Proof.
+  destruct a; cbn [op_read]; try (apply safe_expectZeroSize; apply safe_read_ty).
+  - unfold produce_read, produce_partition, discardString, readStringWith, discardInt32, readInt16. safe.
+  - unfold fetch_read, fetch_header, fetch_header_v10, fetch_header_v5, fetch_header_v2,
+      fetch_partition_v5, expect_one, aborted_txs, check_msgset_size, readArrayLen, msg_header,
+      discard_remaining, discardString, readStringWith, discardInt32, readInt8, readInt16, readInt32, readInt64.
+    safe.
+  - unfold listoffsets_read, discardString, readStringWith, readInt16. safe.
+  - unfold apiversions_read, readInt16, readInt32. safe.
+Qed.
 
 (* ---- readers that can never produce a kafka.Error ---- *)
 Definition nk {A} (p : P A) : Prop :=
@@ -104,7 +141,27 @@ Proof.
   - destruct (sz1 =? 0); inversion H. reflexivity.
   - inversion H; subst. eapply Hp; exact E.
 Qed.
-Lemma nk_op_read a v : schema_api a = true -> nk (op_read a v).
+Lemma nk_fail A (e : err) : is_kafka e = false -> nk (@fail A e).
+Proof. intros He sz s e' sz' s' H. inversion H; subst. exact He. Qed.
+Lemma nk_get_sz : nk get_sz.
+Proof. intros sz s e sz' s' H. inversion H. Qed.
+Lemma nk_discardN n : nk (discardN n).
+Proof.
+  intros sz s e sz' s' H. unfold discardN in H.
+  destruct (n <=? sz).
+  - destruct (bufio_discard_spec n s) as [[_ E]|[[_ E]|[_ [_ E]]]]; rewrite E in H; inversion H; reflexivity.
+  - destruct (bufio_discard_spec sz s) as [[_ E]|[[_ E]|[_ [_ E]]]]; rewrite E in H; inversion H; reflexivity.
+Qed.
+Lemma nk_discard_remaining : nk discard_remaining.
+Proof. unfold discard_remaining. apply nk_bind; [apply nk_get_sz|]. intros n. apply nk_discardN. Qed.
+Lemma nk_msg_header : nk msg_header.
+Proof.
+  unfold msg_header.
+  repeat first [ apply nk_bind; [apply nk_read_int|intros ?] | apply nk_ret
+               | apply nk_fail; reflexivity
+               | match goal with |- nk (if ?b then _ else _) => destruct b end ].
+Qed.
+Lemma nk_op_read a v off : schema_api a = true -> nk (op_read a v off).
 Proof.
   intros Hs. destruct a; try discriminate Hs; cbn [op_read];
     apply nk_expectZeroSize; apply nk_read_ty.
@@ -125,19 +182,80 @@ Proof.
   - destruct (Z.eqb_spec sz1 0); intros H; inversion H; subst; auto.
   - intros H; inversion H.
 Qed.
-
-Lemma op_read_inl_zero a v sz s x sz' s' : op_read a v sz s = (inl x, sz', s') -> sz' = 0.
+Lemma expectZeroSize_inr A (p : P A) sz s e sz' s' :
+  expectZeroSize p sz s = (inr e, sz', s') -> is_kafka e = true -> p sz s = (inr e, sz', s').
 Proof.
-  destruct a; cbn [op_read]; unfold produce_read, listoffsets_read; apply expectZeroSize_inl.
+  unfold expectZeroSize. destruct (p sz s) as [[[x|e0] sz1] s1].
+  - destruct (Z.eqb_spec sz1 0); intros H; inversion H; subst. discriminate.
+  - intros H _; inversion H; reflexivity.
 Qed.
 
-Lemma op_read_exact a v size s x sz' s' :
-  op_read a v size s = (inl x, sz', s') ->
+Lemma discardN_all_zero sz s u sz' s' : discardN sz sz s = (inl u, sz', s') -> sz' = 0.
+Proof.
+  unfold discardN. destruct (Z.leb_spec sz sz); [|lia].
+  destruct (bufio_discard_spec sz s) as [[_ E]|[[_ E]|[_ [_ E]]]]; rewrite E; intros HH; inversion HH. lia.
+Qed.
+Lemma discard_remaining_zero sz s u sz' s' : discard_remaining sz s = (inl u, sz', s') -> sz' = 0.
+Proof. unfold discard_remaining, bind, get_sz. apply discardN_all_zero. Qed.
+
+Lemma skip_kafka_zero A (p : P A) sz s c sz' s' :
+  skipRemainingOnKafkaError p sz s = (inr (EKafka c), sz', s') -> sz' = 0.
+Proof.
+  unfold skipRemainingOnKafkaError. destruct (p sz s) as [[[a|e] sz1] s1].
+  - intros H; inversion H.
+  - destruct e; try (intros H; inversion H; fail).
+    destruct (discardN sz1 sz1 s1) as [[[u|e] sz2] s2] eqn:Ed.
+    + intros H; inversion H; subst. eapply discardN_all_zero; exact Ed.
+    + intros H; inversion H; subst. pose proof (nk_discardN _ _ _ _ _ _ Ed) as Hk. discriminate Hk.
+Qed.
+
+(* when a reader is done (success, or a Kafka error after which the connection is kept), nothing
+   of the frame is left: every such path ends in expectZeroSize or in a discard of the remainder.
+   (list-offsets returns early on a partition error without draining, ApiVersions does not check
+   the size: both are treated on well-formed responses in ConnOpsCustom.) *)
+Lemma zero_on_done a v off sz s r sz' s' :
+  op_read a v off sz s = (r, sz', s') -> a <> AApiVersions ->
+  match r with inl _ => True | inr (EKafka _) => a <> AListOffsets | _ => False end ->
+  sz' = 0.
+Proof.
+  intros H Ha Hr.
+  assert (Hschema : schema_api a = true -> sz' = 0).
+  { intros Hs. destruct r as [x|e].
+    - destruct a; try discriminate Hs; cbn [op_read] in H; eapply expectZeroSize_inl; exact H.
+    - destruct e; try contradiction.
+      pose proof (nk_op_read a v off Hs _ _ _ _ _ H) as Hk. discriminate Hk. }
+  destruct a; try (apply Hschema; reflexivity); try contradiction; cbn [op_read] in H.
+  - (* produce *) destruct r as [x|e]; [eapply expectZeroSize_inl; exact H|].
+    destruct e; try contradiction. unfold produce_read in H.
+    apply expectZeroSize_inr in H; [|reflexivity]. eapply skip_kafka_zero; exact H.
+  - (* fetch *) unfold fetch_read, bind in H.
+    destruct (skipRemainingOnKafkaError (fetch_header v) sz s) as [[[h|e0] sz1] s1] eqn:Eh.
+    + destruct (snd h =? off).
+      * destruct (discard_remaining sz1 s1) as [[[u|e1] sz2] s2] eqn:Ed.
+        -- inversion H; subst. eapply discard_remaining_zero; exact Ed.
+        -- inversion H; subst. destruct e1; try contradiction.
+           pose proof (nk_discard_remaining _ _ _ _ _ Ed) as Hk. discriminate Hk.
+      * destruct (msg_header sz1 s1) as [[[m|e1] sz2] s2] eqn:Em.
+        -- destruct (discard_remaining sz2 s2) as [[[u|e2] sz3] s3] eqn:Ed.
+           ++ inversion H; subst. eapply discard_remaining_zero; exact Ed.
+           ++ inversion H; subst. destruct e2; try contradiction.
+              pose proof (nk_discard_remaining _ _ _ _ _ Ed) as Hk. discriminate Hk.
+        -- inversion H; subst. destruct e1; try contradiction.
+           pose proof (nk_msg_header _ _ _ _ _ Em) as Hk. discriminate Hk.
+    + inversion H; subst. destruct e0; try contradiction. eapply skip_kafka_zero; exact Eh.
+  - (* list-offsets *) destruct r as [x|e]; [eapply expectZeroSize_inl; exact H|].
+    destruct e; try contradiction.
+Qed.
+
+Lemma op_read_exact a v off size s r sz' s' :
+  op_read a v off size s = (r, sz', s') -> a <> AApiVersions ->
+  match r with inl _ => True | inr (EKafka _) => a <> AListOffsets | _ => False end ->
   exists c, s = c ++ s' /\ Z.of_nat (length c) = size.
 Proof.
-  intros H. pose proof (op_read_inl_zero _ _ _ _ _ _ _ H) as Hz.
-  destruct (good_op_read a v _ _ _ _ _ H) as (c & Hs & Hb & _).
-  destruct (Hb eq_refl) as [Hsz _]. exists c. split; [exact Hs|lia].
+  intros H Ha Hr. pose proof (zero_on_done _ _ _ _ _ _ _ _ H Ha Hr) as Hz.
+  destruct (good_op_read a v off _ _ _ _ _ H) as (c & Hs & Hb & _).
+  assert (Hnt : rtransport r = false) by (destruct r as [x|e]; [reflexivity|destruct e; try contradiction; reflexivity]).
+  destruct (Hb Hnt) as [Hsz _]. exists c. split; [exact Hs|lia].
 Qed.
 
 Lemma wait_response_inl id s size s1 cl :
@@ -148,49 +266,71 @@ Proof.
   unfold wait_response. destruct (Nat.ltb_spec (length s) 8) as [Hl|Hl]; [intros H; inversion H|].
   destruct (get_bes 4 (firstn 4 (skipn 4 s)) =? id) eqn:E; intros H; inversion H; auto.
 Qed.
+Lemma wait_response_inr id s e s1 cl :
+  wait_response id s = (inr e, s1, cl) -> s1 = s /\ ((e = EEOF /\ cl = true) \/ (e = ENoProgress /\ cl = false)).
+Proof.
+  unfold wait_response. destruct (length s <? 8)%nat; [intros H; inversion H; auto|].
+  destruct (_ =? _); intros H; inversion H; auto.
+Qed.
 
-(* C11, the structural half: whenever an operation that reads its response through
-   "readFrom; expectZeroSize; then look at the error codes" returns success or a Kafka
-   error — on ANY incoming bytes — it has consumed exactly its own frame. *)
-Theorem frame_exact st o s st' r s' :
+Lemma map_err_kafka a e c : map_err a e = EKafka c -> e = EKafka c.
+Proof. destruct a, e; cbn; intros H; try discriminate H; exact H. Qed.
+Lemma map_err_is_kafka a e : is_kafka (map_err a e) = is_kafka e.
+Proof. destruct a, e; reflexivity. Qed.
+
+Lemma conn_do_unfold st o s :
   closed st = false ->
-  op_api o <> AFetch -> op_api o <> AApiVersions ->
+  conn_do st o s =
+    let a := op_api o in
+    let off := match a with AFetch => op_off o | _ => offset st end in
+    let st1 := mkConn false (wrap32 (corr st + 1)) (cfg_topic st) off in
+    match wait_response (wrap32 (corr st + 1)) s with
+    | (inr e, s', cl) => (set_closed st1 cl, RErr (map_err a e), s')
+    | (inl size, s', _) =>
+        match op_read a (op_ver o) off size s' with
+        | (inl v, _, s'') => (st1, post (cfg_topic st) a (op_ver o) v, s'')
+        | (inr e, _, s'') => (set_closed st1 (negb (is_kafka (map_err a e))), RErr (map_err a e), s'')
+        end
+    end.
+Proof. intros H. unfold conn_do. rewrite H. reflexivity. Qed.
+
+Lemma post_err_kafka topic a v x e : post topic a v x = RErr e -> exists c, e = EKafka c.
+Proof.
+  unfold post. destruct (post_error topic a v x); [intros H; inversion H; eauto|].
+  destruct a; intros H; discriminate H.
+Qed.
+
+(* C11, the structural half: whenever an operation returns success or a Kafka error — on ANY
+   incoming bytes — it has consumed exactly its own frame (the one announced by the size prefix)
+   and the connection is kept.  (ApiVersions / a Kafka error of list-offsets: on well-formed
+   responses, ConnOpsCustom.) *)
+Theorem frame_exact st o s st' r s' :
+  closed st = false -> op_api o <> AApiVersions ->
   conn_do st o s = (st', r, s') ->
   match r with
   | ROk _ => True
-  | RErr (EKafka _) => schema_api (op_api o) = true
+  | RErr (EKafka _) => op_api o <> AListOffsets
   | _ => False
   end ->
   consumed_frame s s' /\ closed st' = false.
 Proof.
-  intros Hcl Hf Ha H Hr. unfold conn_do in H. rewrite Hcl in H.
+  intros Hcl Ha H Hr. rewrite conn_do_unfold in H by exact Hcl. cbv zeta in H.
   destruct (wait_response (wrap32 (corr st + 1)) s) as [[[size|e] s1] cl] eqn:Ew.
-  2:{ inversion H; subst r. unfold wait_response in Ew.
-      destruct (length s <? 8)%nat; [inversion Ew; subst e|].
-      - destruct (op_api o); contradiction.
-      - destruct (_ =? _); inversion Ew; subst e. destruct (op_api o); contradiction. }
+  2:{ inversion H; subst r. apply wait_response_inr in Ew as [_ [[He _]|[He _]]]; subst e;
+      destruct (op_api o); cbn in Hr; contradiction. }
   apply wait_response_inl in Ew as (Hlen & Hsize & Hs1 & _ & _).
-  assert (Hgen : forall a, op_api o = a -> a <> AFetch -> a <> AApiVersions ->
-     match op_read a (op_ver o) size s1 with
-     | (inl v, _, s'') => (mkConn false (wrap32 (corr st + 1)) (cfg_topic st) (offset st),
-                           post (cfg_topic st) a (op_ver o) v, s'')
-     | (inr e, _, s'') => (set_closed (mkConn false (wrap32 (corr st + 1)) (cfg_topic st) (offset st))
-                                      (negb (is_kafka e)), RErr e, s'')
-     end = (st', r, s') -> consumed_frame s s' /\ closed st' = false).
-  { intros a Ea Hf' Ha' H'.
-    destruct (op_read a (op_ver o) size s1) as [[[x|e] sz1] s2] eqn:Er.
-    - inversion H'; subst st' s2. split; [|reflexivity].
-      destruct (op_read_exact _ _ _ _ _ _ _ Er) as (c & Hc & Hlc).
-      exists c. split; [exact Hlen|]. split; [|lia].
-      rewrite <- Hc, Hs1. symmetry. apply firstn_skipn.
-    - inversion H'; subst r. exfalso.
-      destruct e; try contradiction. rewrite Ea in Hr.
-      pose proof (nk_op_read a (op_ver o) Hr _ _ _ _ _ Er) as Hk. discriminate Hk. }
-  destruct (op_api o) eqn:Ea; try contradiction;
-    (eapply Hgen; [reflexivity|discriminate|discriminate|]);
-    replace (offset st) with (match op_api o with AFetch => op_off o | _ => offset st end)
-      by (rewrite Ea; reflexivity);
-    rewrite Ea; exact H.
+  set (off := match op_api o with AFetch => op_off o | _ => offset st end) in *.
+  destruct (op_read (op_api o) (op_ver o) off size s1) as [[ra sz1] s2] eqn:Er.
+  assert (Hexact : match ra with inl _ => True | inr (EKafka _) => op_api o <> AListOffsets | _ => False end ->
+                   consumed_frame s s2).
+  { intros Hra. destruct (op_read_exact _ _ _ _ _ _ _ _ Er Ha Hra) as (c & Hc & Hlc).
+    exists c. split; [exact Hlen|]. split; [|lia].
+    rewrite <- Hc, Hs1. symmetry. apply firstn_skipn. }
+  destruct ra as [x|e].
+  - inversion H; subst st' s2. split; [apply Hexact; exact I|reflexivity].
+  - inversion H; subst st' r s2. destruct (map_err (op_api o) e) eqn:Em; try contradiction.
+    apply map_err_kafka in Em. subst e. split; [apply Hexact; exact Hr|].
+    reflexivity.
 Qed.
 
 Lemma wrap32_in_signed z : in_signed 4 (wrap32 z).
@@ -243,7 +383,8 @@ Proof.
 Qed.
 
 (* what conn_do does on a well-formed frame of a "read everything, then check" operation *)
-Lemma op_read_schema a v : schema_api a = true -> op_read a v = expectZeroSize (read_ty (resp_ty a v)).
+Lemma op_read_schema a v off : schema_api a = true ->
+  op_read a v off = expectZeroSize (read_ty (resp_ty a v)).
 Proof. destruct a; try discriminate; reflexivity. Qed.
 
 Lemma conn_do_schema_frame st a v off w rest :
@@ -252,53 +393,28 @@ Lemma conn_do_schema_frame st a v off w rest :
   = (mkConn false (wrap32 (corr st + 1)) (cfg_topic st) (offset st),
      post (cfg_topic st) a v (dec_val (resp_ty a v) w), rest).
 Proof.
-  intros Hs Hwt Hfit Hcl. unfold conn_do. rewrite Hcl. cbn [op_api op_ver op_off].
+  intros Hs Hwt Hfit Hcl. rewrite conn_do_unfold by exact Hcl. cbv zeta. cbn [op_api op_ver op_off].
   rewrite wait_response_frame by (try apply wrap32_in_signed; exact Hfit).
-  assert (Hr : op_read a v (Z.of_nat (length (enc (resp_ty a v) w))) (enc (resp_ty a v) w ++ rest)
-               = (inl (dec_val (resp_ty a v) w), 0, rest)).
-  { rewrite op_read_schema by exact Hs. unfold expectZeroSize.
-    rewrite read_ty_enc by (try exact Hwt; lia). rewrite Z.sub_diag. reflexivity. }
-  destruct a; try discriminate Hs; rewrite Hr; reflexivity.
+  rewrite op_read_schema by exact Hs. unfold expectZeroSize.
+  rewrite read_ty_enc by (try exact Hwt; lia). rewrite Z.sub_diag. cbn [Z.eqb].
+  destruct a; try discriminate Hs; reflexivity.
 Qed.
 
 (* ---- "a Kafka error keeps the connection, any other error closes it" ---- *)
-Lemma post_err_kafka topic a v x e : post topic a v x = RErr e -> is_kafka e = true.
-Proof.
-  unfold post. destruct (post_error topic a v x); [intros H; inversion H; reflexivity|].
-  destruct a; intros H; discriminate H.
-Qed.
-
 Theorem closed_after_other_error st o s st' e s' :
   conn_do st o s = (st', RErr e, s') ->
-  is_kafka e = false -> e <> ENoProgress -> op_api o <> AApiVersions ->
+  is_kafka e = false -> e <> ENoProgress ->
   closed st' = true.
 Proof.
-  intros H Hk Hnp Ha. unfold conn_do in H.
+  intros H Hk Hnp. unfold conn_do in H.
   destruct (closed st) eqn:Hcl; [inversion H; subst; reflexivity|].
   destruct (wait_response (wrap32 (corr st + 1)) s) as [[[size|e0] s1] cl] eqn:Ew.
-  - assert (Hgen : forall a st1,
-       match op_read a (op_ver o) size s1 with
-       | (inl v, _, s'') => (st1, post (cfg_topic st) a (op_ver o) v, s'')
-       | (inr e, _, s'') => (set_closed st1 (negb (is_kafka e)), RErr e, s'')
-       end = (st', RErr e, s') -> closed st' = true).
-    { intros a st1 H'.
-      destruct (op_read a (op_ver o) size s1) as [[[x|e1] sz1] s2] eqn:Er.
-      - inversion H' as [[H1 H2 H3]]. apply post_err_kafka in H2. congruence.
-      - inversion H'; subst. cbn. rewrite Hk. reflexivity. }
-    destruct (op_api o) eqn:Ea; try contradiction; try (eapply Hgen; exact H).
-    (* fetch *)
-    destruct (fetch_after_wait (op_ver o) (op_off o) size s1) as [[r cl'] s2] eqn:Ef.
-    inversion H; subst. cbn. unfold fetch_after_wait in Ef.
-    destruct (fetch_header (op_ver o) size s1) as [[[[thr hwm]|e1] sz1] s3].
-    + destruct (hwm =? op_off o); [inversion Ef|].
-      destruct (msg_header sz1 s3) as [[[m|e2] sz2] s4];
-        destruct (discardN sz2 sz2 s4) as [[? ?] ?]; inversion Ef.
-      subst. rewrite Hk. reflexivity.
-    + inversion Ef. subst. rewrite Hk. reflexivity.
-  - unfold wait_response in Ew. destruct (length s <? 8)%nat.
-    + inversion Ew; subst. inversion H; subst. reflexivity.
-    + destruct (_ =? _); inversion Ew; subst. inversion H; subst.
-      destruct (op_api o); cbn in *; contradiction.
+  - destruct (op_read _ _ _ size s1) as [[[x|e1] sz1] s2] eqn:Er.
+    + inversion H as [[H1 H2 H3]]. apply post_err_kafka in H2 as [c Hc]. subst e. discriminate Hk.
+    + inversion H; subst. cbn. rewrite Hk. reflexivity.
+  - apply wait_response_inr in Ew as [_ [[He Hc]|[He Hc]]]; subst e0 cl; inversion H; subst.
+    + reflexivity.
+    + exfalso. apply Hnp. destruct (op_api o); reflexivity.
 Qed.
 
 Theorem closed_stays_closed st o s :
@@ -316,9 +432,11 @@ Proof.
     destruct (IH st1 H1) as (st2 & E2 & H2). rewrite E2. exists st2. auto.
 Qed.
 
-(* ---- truncation: a cut strictly inside what the full run consumed ---- *)
+(* ---- truncation ---- *)
 Lemma transport_not_kafka e : transport e = true -> is_kafka e = false.
 Proof. destruct e; cbn; congruence. Qed.
+Lemma map_err_transport a e : transport e = true -> transport (map_err a e) = true.
+Proof. destruct a, e; cbn; congruence. Qed.
 
 Lemma wait_response_cut id s k size s1 cl :
   wait_response id s = (inl size, s1, cl) -> (8 <= k)%nat ->
@@ -332,100 +450,85 @@ Proof.
   rewrite skipn_firstn_comm. subst s1 size. rewrite Hid. reflexivity.
 Qed.
 
-Lemma conn_do_generic st o s :
-  closed st = false -> op_api o <> AFetch -> op_api o <> AApiVersions ->
-  conn_do st o s =
-    let st1 := mkConn false (wrap32 (corr st + 1)) (cfg_topic st) (offset st) in
-    match wait_response (wrap32 (corr st + 1)) s with
-    | (inr e, s', cl) => (set_closed st1 cl, RErr e, s')
-    | (inl size, s', _) =>
-        match op_read (op_api o) (op_ver o) size s' with
-        | (inl v, _, s'') => (st1, post (cfg_topic st) (op_api o) (op_ver o) v, s'')
-        | (inr e, _, s'') => (set_closed st1 (negb (is_kafka e)), RErr e, s'')
-        end
-    end.
-Proof.
-  intros H Hf Ha. unfold conn_do. rewrite H.
-  destruct (op_api o) eqn:E; try contradiction; reflexivity.
-Qed.
-
-(* C17 (Conn half), structural form: cut the incoming stream anywhere strictly inside what the
-   complete exchange consumed: the operation fails with io.EOF / io.ErrUnexpectedEOF and the
-   Conn closes itself.  No assumption on the bytes. *)
+(* C17 (Conn half), structural form, EVERY operation, ANY incoming bytes: cut the stream
+   anywhere strictly inside what the complete exchange consumed: the operation fails with
+   io.EOF / io.ErrUnexpectedEOF and the Conn closes itself. *)
 Theorem conn_do_cut st o s st' r s' k :
-  closed st = false -> op_api o <> AFetch -> op_api o <> AApiVersions ->
+  closed st = false ->
   conn_do st o s = (st', r, s') ->
   (k + length s' < length s)%nat ->
   exists e st2 s2,
     conn_do st o (firstn k s) = (st2, RErr e, s2) /\ transport e = true /\ closed st2 = true.
 Proof.
-  intros Hcl Hf Ha H Hk.
-  rewrite conn_do_generic in H by assumption. rewrite conn_do_generic by assumption. cbv zeta in *.
+  intros Hcl H Hk.
+  rewrite conn_do_unfold in H by assumption. rewrite conn_do_unfold by assumption. cbv zeta in *.
+  set (off := match op_api o with AFetch => op_off o | _ => offset st end) in *.
   destruct (wait_response (wrap32 (corr st + 1)) s) as [[[size|e0] s1] cl] eqn:Ew.
-  2:{ unfold wait_response in Ew. destruct (length s <? 8)%nat.
-      - inversion Ew; subst. inversion H; subst. lia.
-      - destruct (_ =? _); inversion Ew; subst. inversion H; subst. lia. }
+  2:{ apply wait_response_inr in Ew as [Hs1 _]. subst s1. inversion H; subst. lia. }
   pose proof Ew as Ew'. apply wait_response_inl in Ew' as (Hlen & _ & Hs1 & _ & _).
   assert (Hs : s = firstn 8 s ++ s1) by (rewrite Hs1; symmetry; apply firstn_skipn).
   assert (H8 : length (firstn 8 s) = 8%nat) by (apply firstn_length_le; exact Hlen).
-  destruct (op_read (op_api o) (op_ver o) size s1) as [[ra sz1] s2] eqn:Er.
+  destruct (op_read (op_api o) (op_ver o) off size s1) as [[ra sz1] s2] eqn:Er.
   assert (Hs2 : s' = s2) by (destruct ra; inversion H; reflexivity).
-  destruct (good_op_read _ _ _ _ _ _ _ Er) as (c & Hc & _ & Hd).
+  destruct (good_op_read _ _ _ _ _ _ _ _ Er) as (c & Hc & _ & Hd).
   assert (Hlc : (k < 8 + length c)%nat).
   { rewrite Hs, Hc, !app_length, H8 in Hk. subst s2. lia. }
   destruct (Nat.lt_ge_cases k 8) as [Hk8|Hk8].
-  - exists EEOF. unfold wait_response.
+  - exists (map_err (op_api o) EEOF). unfold wait_response.
     destruct (Nat.ltb_spec (length (firstn k s)) 8) as [Hx|Hx]; [|rewrite firstn_length in Hx; lia].
-    eexists. eexists. split; [reflexivity|]. split; reflexivity.
+    eexists. eexists. split; [reflexivity|]. split; [apply map_err_transport|]; reflexivity.
   - rewrite (wait_response_cut _ _ _ _ _ _ Ew Hk8).
     replace (firstn (k - 8) s1) with (firstn (k - 8) c)
       by (rewrite Hc; symmetry; apply firstn_app_lt; lia).
     destruct (Hd (k - 8)%nat ltac:(lia)) as (e & sz2 & s3 & He & Ht).
-    rewrite He. exists e. eexists. eexists. split; [reflexivity|]. split; [exact Ht|].
-    cbn. rewrite (transport_not_kafka _ Ht). reflexivity.
+    rewrite He. exists (map_err (op_api o) e). eexists. eexists. split; [reflexivity|].
+    split; [apply map_err_transport; exact Ht|].
+    cbn. rewrite map_err_is_kafka, (transport_not_kafka _ Ht). reflexivity.
 Qed.
 
-(* on a well-formed frame of a "read everything, then check" operation: every cut position *)
-Theorem conn_cut_schema st a v off w k :
-  schema_api a = true -> wt (resp_ty a v) w -> fits (enc (resp_ty a v) w) -> closed st = false ->
-  (k < length (frame (wrap32 (corr st + 1)) (enc (resp_ty a v) w)))%nat ->
-  exists e st2 s2,
-    conn_do st (mkOp a v off) (firstn k (frame (wrap32 (corr st + 1)) (enc (resp_ty a v) w)))
-      = (st2, RErr e, s2) /\ transport e = true /\ closed st2 = true.
+Lemma wait_response_cut_inr id s k e s1 cl :
+  wait_response id s = (inr e, s1, cl) -> (8 <= k)%nat ->
+  exists s2, wait_response id (firstn k s) = (inr e, s2, cl).
 Proof.
-  intros Hs Hwt Hfit Hcl Hk.
-  pose proof (conn_do_schema_frame st a v off w [] Hs Hwt Hfit Hcl) as Hfull.
-  rewrite app_nil_r in Hfull.
-  eapply conn_do_cut; try exact Hfull; try exact Hcl; cbn [op_api];
-    try (destruct a; discriminate). cbn [length]. lia.
+  intros H Hk. unfold wait_response in *.
+  destruct (Nat.ltb_spec (length s) 8) as [Hl|Hl].
+  - rewrite firstn_all2 by lia. destruct (Nat.ltb_spec (length s) 8); [|lia].
+    inversion H; subst. eexists. reflexivity.
+  - destruct (Nat.ltb_spec (length (firstn k s)) 8) as [Hx|Hx]; [rewrite firstn_length in Hx; lia|].
+    rewrite firstn_firstn. replace (Nat.min 4 k) with 4%nat by lia.
+    rewrite skipn_firstn_comm, firstn_firstn. replace (Nat.min 4 (k - 4)) with 4%nat by lia.
+    destruct (_ =? _); inversion H; subst. eexists. reflexivity.
 Qed.
 
-(* ---- runs: every operation consumes its own frame ---- *)
-Inductive frames_consumed : list N -> nat -> list N -> Prop :=
-| fc_nil s : frames_consumed s 0 s
-| fc_cons s s1 s2 n : consumed_frame s s1 -> frames_consumed s1 n s2 -> frames_consumed s (S n) s2.
-
-Definition clean_outcome (o : op) (r : result) : Prop :=
-  op_api o <> AFetch /\ op_api o <> AApiVersions /\
-  match r with
-  | ROk _ => True
-  | RErr (EKafka _) => schema_api (op_api o) = true
-  | _ => False
-  end.
-
-Theorem run_frames_exact ops : forall st s st' rs s',
-  closed st = false ->
-  conn_run st ops s = (st', rs, s') ->
-  Forall2 clean_outcome ops rs ->
-  frames_consumed s (length ops) s' /\ closed st' = false.
+(* a cut at or beyond what the complete exchange consumed changes nothing but the rest *)
+Theorem conn_do_cut_beyond st o s st' r s' k :
+  closed st = false -> (8 <= k)%nat ->
+  conn_do st o s = (st', r, s') ->
+  get_bes 4 (firstn 4 s) - 4 <= Z.of_nat (length s) - 8 ->     (* the announced frame is there *)
+  (length s <= k + length s')%nat ->
+  exists s2, conn_do st o (firstn k s) = (st', r, s2).
 Proof.
-  induction ops as [|o ops IH]; intros st s st' rs s' Hcl H Hall; cbn [conn_run] in H.
-  - inversion H; subst. split; [constructor|exact Hcl].
-  - destruct (conn_do st o s) as [[st1 r1] s1] eqn:E1.
-    destruct (conn_run st1 ops s1) as [[st2 rs2] s2] eqn:E2.
-    inversion H; subst st' rs s'. inversion Hall as [|? ? ? ? Hc Hrest]; subst.
-    destruct Hc as (Hf & Ha & Hr).
-    destruct (frame_exact _ _ _ _ _ _ Hcl Hf Ha E1 Hr) as [Hcf Hcl1].
-    destruct (IH _ _ _ _ _ Hcl1 E2 Hrest) as [Hfc Hcl2].
-    split; [econstructor; eassumption|exact Hcl2].
+  intros Hcl Hk8 H Hfull Hk.
+  rewrite conn_do_unfold in H by assumption. rewrite conn_do_unfold by assumption. cbv zeta in *.
+  set (off := match op_api o with AFetch => op_off o | _ => offset st end) in *.
+  destruct (wait_response (wrap32 (corr st + 1)) s) as [[[size|e0] s1] cl] eqn:Ew.
+  2:{ destruct (wait_response_cut_inr _ _ _ _ _ _ Ew Hk8) as (s2 & E2). rewrite E2.
+      inversion H; subst. eexists. reflexivity. }
+  pose proof Ew as Ew'. apply wait_response_inl in Ew' as (Hlen & _ & Hs1 & _ & _).
+  assert (Hs : s = firstn 8 s ++ s1) by (rewrite Hs1; symmetry; apply firstn_skipn).
+  assert (H8 : length (firstn 8 s) = 8%nat) by (apply firstn_length_le; exact Hlen).
+  destruct (op_read (op_api o) (op_ver o) off size s1) as [[ra sz1] s2] eqn:Er.
+  assert (Hs2 : s' = s2) by (destruct ra; inversion H; reflexivity).
+  destruct (good_op_read _ _ _ _ _ _ _ _ Er) as (c & Hc & Hb & _).
+  assert (Hlc : (8 + length c <= k)%nat).
+  { rewrite Hs, Hc, !app_length, H8 in Hk. subst s2. lia. }
+  assert (Hnt : rtransport ra = false).
+  { pose proof Ew as Ew2. apply wait_response_inl in Ew2 as (_ & Hsize & _ & _ & _).
+    refine (proj1 (safe_op_read _ _ _ _ _ _ _ _ Er _)).
+    rewrite Hs1, skipn_length. lia. }
+  destruct (Hb Hnt) as [_ Hloc].
+  rewrite (wait_response_cut _ _ _ _ _ _ Ew Hk8).
+  replace (firstn (k - 8) s1) with (c ++ firstn (k - 8 - length c) s2)
+    by (rewrite Hc; symmetry; apply firstn_app_ge; lia).
+  rewrite Hloc. destruct ra; inversion H; subst; eexists; reflexivity.
 Qed.
